@@ -354,7 +354,8 @@ class Grammar:
         starting_symbol.__dict__["__gengy__"]["weight"] = weights[starting_symbol]
         nodes = list()
         for node in self.considered_subtypes:
-            node.__dict__["__gengy__"]["weight"] = weights[node]
+            if node in weights:  # a supplied class the starting symbol does not reach has no normalised weight
+                node.__dict__["__gengy__"]["weight"] = weights[node]
             nodes.append(node)
         self.__init__(starting_symbol, nodes, self.expansion_depthing)
         self.register_type(starting_symbol)
